@@ -132,8 +132,46 @@ FIXED = ["", " ", "1 = 2", "f(x + 1 = 2)", "f(k = 1)", "y[3]", "y[1.5]", "y[True
          "y ~ a:b:c", "y ~ a*b*c", "y ~ x =", "= x", "y ~ x = z", "y ~ f(x, k = z + 1)", "y ~ f(k = 1, x)"]
 
 
+SPLITTABLE = {"**": ["*", "*"], "==": ["=", "="], "!=": ["!", "="], "<=": ["<", "="], ">=": [">", "="], "//": ["/", "/"]}
+
+
+def _after_cases(rng, n):
+    """pairs of texts that differ only in whitespace INSIDE what is one token in the first text: the second is
+    interpreted after the first in the same process (whitespace separates tokens; an interpretation never depends
+    on what was interpreted before)"""
+    out = [{"s": "y ~ x y", "before": "y ~ xy"}, {"s": "y ~ x + 1 0", "before": "y ~ x + 10"},
+           {"s": "y ~ `ab`", "before": "y ~ `a b`"}, {"s": "y ~ `a b`", "before": "y ~ `ab`"},
+           {"s": "y ~ f(x = = 1)", "before": "y ~ f(x == 1)"}, {"s": "y ~ (a + b) * * 2", "before": "y ~ (a + b) ** 2"},
+           {"s": "y ~ x + 'a b'", "before": "y ~ x + 'ab'"}, {"s": "y ~ np . log(x)", "before": "y ~ np.log(x)"}]
+    tries = 0
+    while len(out) < n and tries < 50 * n:
+        tries += 1
+        lx = _sentence(rng, rng.randint(0, 4))
+        cand = [i for i, t in enumerate(lx) if t in SPLITTABLE or (len(t) >= 2 and (t[0].isalnum() or t[0] == "_")
+                                                                  and all(ch.isalnum() or ch in "._" for ch in t))]
+        if not cand:
+            continue
+        i = rng.choice(cand)
+        t = lx[i]
+        if t in SPLITTABLE:
+            parts = SPLITTABLE[t]
+        else:
+            k = rng.randint(1, len(t) - 1)
+            parts = [t[:k], t[k:]]
+        before = _join(rng, lx, "min")
+        after = _join(rng, lx[:i] + parts + lx[i + 1:], "min")
+        # _join puts a blank where the two pieces would fuse again; force one for pieces like 'np' '.x'
+        if "".join(after.split()) != "".join(before.split()) or after == before:
+            after = _join(rng, lx[:i], "min") + (" " if i else "") + parts[0] + " " + parts[1] + \
+                (" " if i + 1 < len(lx) else "") + _join(rng, lx[i + 1:], "min")
+        if "".join(after.split()) == "".join(before.split()) and after != before:
+            out.append({"s": after, "before": before})
+    return [dict(c, kind="after") for c in out]
+
+
 def gen(rng, tier):
     cases = [{"s": t, "kind": "fixed"} for t in FIXED]
+    cases += _after_cases(rng, 3000 if tier == "thorough" else 300)
     kmax25 = 4 if tier == "thorough" else 3
     for k in range(1, kmax25 + 1):
         for tup in itertools.product(ALPHA25, repeat=k):
@@ -251,6 +289,12 @@ def impl_both(s):
 
 
 def impl_obs(c):
+    if c.get("before") is not None:
+        try:
+            from formulae import model_description
+            model_description(c["before"])
+        except Exception:  # noqa
+            pass
     a, d = impl_both(c["s"])
     return ["ok" if a[0] == "ok" else "err", a, d]
 
@@ -440,12 +484,40 @@ def oracle(c):
     from formulae.parser import Parser
     from formulae import model_description
     s = c["s"]
+    if c.get("before") is not None:
+        try:
+            model_description(c["before"])
+        except Exception:  # noqa
+            pass
     try:
         toks = Scanner(s).scan()
         tree = Parser(list(toks)).parse()
     except Exception:
-        return None  # rejected: always allowed
+        # rejected by the front end: the public entry point must reject it too, whatever it interpreted before
+        try:
+            m = model_description(s)
+        except Exception:
+            return None
+        return (f"{s!r} is not a sentence (scanner/parser reject it) but model_description accepts it"
+                + (f" after having interpreted {c['before']!r}" if c.get("before") else "")
+                + f": {describe_list(m)}")
     body = [t for t in toks if t.kind != "EOF"]
+    # every character of the text is white space between tokens or part of exactly one token: the lexemes,
+    # concatenated, are the text without the white space that lies outside string literals and quoted names
+    want, quote = [], None
+    for ch in s:
+        if quote:
+            want.append(ch)
+            if (quote == "`" and ch == "`") or (quote != "`" and ch in "'\""):
+                quote = None
+        elif ch in "'\"`":
+            quote = ch
+            want.append(ch)
+        elif ch not in " \t\n\r":
+            want.append(ch)
+    got_text = "".join(_strip_implicit(body))
+    if got_text != "".join(want):
+        return f"the lexemes of {s!r} are {got_text!r}: characters were dropped or altered"
     exp = []
     _tokens_of(tree, exp)
     if not _tok_match(exp, body):
@@ -472,6 +544,17 @@ def oracle(c):
         m1 = describe_list(model_description(s))
     except Exception:
         return None
+    # the public entry point interprets the text, not something remembered from an earlier call
+    try:
+        from formulae.resolver import Resolver as _R
+        from formulae.terms.terms import Model as _M
+        d0 = _R(tree).resolve()
+        m0 = describe_list(d0 if isinstance(d0, _M) else _M(d0))
+    except Exception:
+        m0 = None
+    if m0 is not None and m0 != m1:
+        return (f"model_description({s!r}) = {m1} differs from the resolution of its own parse {m0}"
+                + (f" (after {c['before']!r})" if c.get("before") else ""))
     fp = _fullparen(tree)
     if _has_awkward_float(tree):
         return None
